@@ -144,6 +144,7 @@ func cmdCheck(args []string) {
 	var reports []*funcReport
 	repByName := map[string]*funcReport{}
 	var undecided []string
+	var unbound []*Obligation
 	assumed := map[string]bool{}
 	notes := map[string]bool{}
 	inlinedAll := map[string]bool{}
@@ -157,9 +158,14 @@ func cmdCheck(args []string) {
 		reports = append(reports, rep)
 		repByName[k] = rep
 		if err != nil {
-			undecided = append(undecided, fmt.Sprintf("%s: %v", k, err))
-			rep.Level = "undecided"
+			// The contract can no longer be bound to the code, or the code left the verified subset: every obligation of
+			// this function was discharged on the unchanged tree and none can be re-established now. Reported as the
+			// failed obligation <func>:contract-binding (no solver verdict, hence no-failing-input-found).
+			rep.Level = "unbound"
 			rep.Notes = append(rep.Notes, err.Error())
+			o := &Obligation{Name: k + ":contract-binding", Func: k, Kind: "contract-binding", Guard: "true", Goal: "false", Ctx: NewCtx(k),
+				Result: "unbound", Text: "the contract of " + k + " no longer binds to / covers the code: " + err.Error(), Pos: e.posOf(fn.Pos())}
+			unbound = append(unbound, o)
 			continue
 		}
 		for _, o := range ctx.obls {
@@ -286,6 +292,14 @@ func cmdCheck(args []string) {
 			vacuous = append(vacuous, os[0])
 		}
 	}
+	for _, o := range unbound {
+		if k := isKnown(o.Name); k != nil {
+			knownHit = append(knownHit, fmt.Sprintf("KNOWN-FINDING: property=%s %s :: %s", *prop, o.Name, k.Text))
+			continue
+		}
+		nObl++
+		violations = append(violations, o)
+	}
 	sort.Slice(slow, func(i, j int) bool { return slow[i].S > slow[j].S })
 	if len(slow) > 10 {
 		slow = slow[:10]
@@ -397,6 +411,14 @@ func writeReplay(e *Engine, o *Obligation, path string, prop string, timeout int
 	var b strings.Builder
 	fmt.Fprintf(&b, "property: %s\nobligation: %s\nkind: %s\nfunction: %s\nat: %s\nclause: %s\nsolver result: %s (%s, %.2fs)\n", prop, o.Name, o.Kind, o.Func, o.Pos, o.Text, o.Result, o.Solver, o.TimeS)
 	suffix := " no-failing-input-found"
+	if o.FailedAlt != "" {
+		fmt.Fprintf(&b, "failing conjunct: %s\n", o.FailedAlt)
+	}
+	if o.Kind == "contract-binding" {
+		fmt.Fprintf(&b, "\nNo verification condition could be generated for this function: %s\nAll its obligations are discharged on the unchanged tree.\n", o.Text)
+		os.WriteFile(path, []byte(b.String()), 0o644)
+		return suffix
+	}
 	// try to obtain a model from the solver (quantifier-free failures usually give one)
 	model := o.Model
 	if model == "" && o.Result != "unsat" {
